@@ -164,7 +164,7 @@ func checkSeq(specs []spec, seq []int) error {
 	return nil
 }
 
-const rule = "participants drawn over three classes with Orders from {MinInt,-1,0,1,MaxInt,small,any}; non-trivial = >=2 classes present and >=2 members in a sorted class; distinct by (site, class/Order list)"
+const rule = "participants drawn over three classes with Orders from {MinInt,-1,0,1,MaxInt,small,any}; non-trivial = >=2 classes present and >=2 members in a sorted class; distinct by (site, class/Order list); since rounds 7/8 also a loader that fails once (the retry is a complete sequence), loaders of map / slice kind with a nil value, and (own process) participants announced through ioc.Register"
 
 // ---- direct ----------------------------------------------------------------
 
